@@ -3,19 +3,29 @@ From Coq Require Import List ZArith NArith Bool.
 From SV Require Import Base.Bytes Json.Ast Doc.JsonPatch Corr.Resolve.
 Import ListNotations.
 
-(* JSON patch: the real library (child process) applied [pj_ops] to [pj_doc] *)
+(* JSON patch: the real library (child process) applied [pj_ops] to [pj_doc]; when the document is an
+   object the same operations were also applied through doccomposer.ApplyPatches (patch
+   {"action":"ietf-json-patch","patches":ops}), which recovers from panics. *)
 Record pcase18 := {
   pj_ops : json; pj_doc : json;
-  pj_outcome : nat;            (* 0 ok, 1 error, 2 panic or fatal error *)
-  pj_result : option json }.
+  pj_outcome : nat;            (* library: 0 ok, 1 error, 2 panic (recoverable), 3 fatal error / killed *)
+  pj_result : option json;
+  pj_composer : nat;           (* composer: 0 ok, 1 error, 3 fatal, 9 not run *)
+  pj_cresult : option json }.
 
-Definition check_pcase18 (c : pcase18) : bool :=
-  match jp_apply (pj_ops c) (pj_doc c), pj_outcome c, pj_result c with
+Definition outcome_agrees (o : outcome) (code : nat) (r : option json) : bool :=
+  match o, code, r with
   | Ok d, O, Some d' => json_equiv d d'
   | Err, S O, _ => true
   | Crash, S (S O), _ => true
+  | Fatal, S (S (S O)), _ => true
   | _, _, _ => false
   end.
+
+Definition check_pcase18 (c : pcase18) : bool :=
+  outcome_agrees (jp_apply (pj_ops c) (pj_doc c)) (pj_outcome c) (pj_result c)
+  && (Nat.eqb (pj_composer c) 9
+      || outcome_agrees (apply_json_outcome (pj_ops c) (pj_doc c)) (pj_composer c) (pj_cresult c)).
 
 Definition jp_mismatches (base : nat) (l : list pcase18) : list nat := mismatches_from check_pcase18 base l.
 
